@@ -42,10 +42,16 @@ def scenarios_for(prop, tier, rng):
             xc, r3 = tlc_cases("foreign", 0, f"{prop}-gen-foreign"); gens.append(r3)
             sc += agentgen.foreign_scenarios(xc, prop)
             counts["foreign_installed_states"] = len(xc)
+            tm = agentgen.tamper_scenarios(prop)
+            sc += tm
+            counts["tampered_after_own_install"] = len(tm)
         if prop == "C01":
             fc = [c for c in fc if c["target"] in ("load", "commit", "none") and c["kind"] in ("rpc-error", "no-ok", "none", "delayed-error")]
             sc += agentgen.fault_scenarios(fc, prop)
             counts["fault_cases"] = len(fc)
+            dm = agentgen.daemon_scenarios(prop)
+            sc += dm
+            counts["daemon_mode_scenarios"] = len(dm)
         return sc, gens, counts
     if prop == "C04":
         cases, r = tlc_cases("fault", 0, f"{prop}-gen"); gens.append(r)
